@@ -214,7 +214,7 @@ fn case(cfg: &Cfg, rep: &mut Report, id: &str, flavor: Flavor, op: &str, a: &[N]
 }
 
 pub fn run(cfg: &Cfg, rep: &mut Report) {
-  let maxn = cfg.n(3, 4);
+  let maxn = cfg.n(3, 5);
   let mut idx = 0usize;
   // enumerated: all script pairs x all interleavings x both flavours
   for flavor in [Flavor::Local, Flavor::Threads] {
@@ -257,7 +257,7 @@ pub fn run(cfg: &Cfg, rep: &mut Report) {
   }
   rep.count("enumerated_cases_total", idx as u64);
   // random longer timelines
-  let total = cfg.n(60_000, 3_000_000);
+  let total = cfg.n(60_000, 25_000_000);
   let mut rng = Rng::new(cfg.seed ^ 0xC04);
   for i in 0..total {
     let mut r = rng.fork();
